@@ -623,6 +623,46 @@ fn check_case(case: &Case, l: &mut Local) {
     }
 }
 
+// ---- constants at the edges of the number kinds, written in the text or supplied through the API
+const API_VALUES: [f64; 12] = [1e19, -1e19, 9.3e18, 1.8446744073709552e19, 9007199254740992.0, 4294967296.0, 3.0, -2.0, 0.5, -0.0, 1e-7, 123456789.125];
+const API_TEMPLATES: [(&str, &str); 4] = [
+    ("coefficient", "min x\ns.t.\n    K * x + y >= 1\n    x <= 7\n"),
+    ("right-hand-side", "min x + y\ns.t.\n    x + y >= K\n"),
+    ("divisor-and-offset", "max x / K + K\ns.t.\n    x + y <= 3\n"),
+    ("block-operand", "min max { x, K }\ns.t.\n    x + y >= 1\n"),
+];
+fn api_constant_case(i: u64, l: &mut Local) {
+    let (tname, body) = API_TEMPLATES[i as usize / API_VALUES.len()];
+    let v = API_VALUES[i as usize % API_VALUES.len()];
+    // plain decimal literal; a whole value keeps a fractional part so that both doors see a Number
+    let mut lit = format!("{}", v.abs());
+    if !lit.contains('.') {
+        lit.push_str(".0");
+    }
+    let lit = if v.is_sign_negative() { format!("0 - {lit}") } else { lit };
+    let define = "define\n    x as Real(0, 9)\n    y as Real(0, 9)\n".replace("\\n", "\n");
+    let inline = format!("{body}where\n    let K = {lit}\n{define}").replace("\\n", "\n");
+    let api = format!("{body}{define}").replace("\\n", "\n");
+    let case = |what: String| json!({"template": tname, "value": v, "text_inline": inline, "text_api": api, "what": what});
+    let a = crate::core::catch(|| compile_text(&inline, vec![])).unwrap_or_else(|p| Err(format!("panic: {p}")));
+    let b = crate::core::catch(|| compile_text(&api, vec![Constant::from_primitive("K", Primitive::Number(v))])).unwrap_or_else(|p| Err(format!("panic: {p}")));
+    l.count("api_constant_extremes");
+    l.nontrivial(&(tname, v.to_bits()));
+    match (&a, &b) {
+        (Ok(x), Ok(y)) => {
+            if let Some(d) = lm_diff(x, y) {
+                l.violation(format!("api-constant-extreme-differs-from-inline:{tname}"), format!("K = {v}: {d}"), case(d.clone()));
+            }
+        }
+        (Err(x), Err(y)) => {
+            if x.split(':').next() != y.split(':').next() {
+                l.violation(format!("api-constant-extreme-different-error:{tname}"), format!("K = {v}: {x} vs {y}"), case(format!("{x} vs {y}")));
+            }
+        }
+        (x, y) => l.violation(format!("api-constant-extreme-only-one-compiles:{tname}"), format!("K = {v}: inline {} / api {}", verdict(&x.as_ref().map(|_| ()).map_err(|e| e.clone())), verdict(&y.as_ref().map(|_| ()).map_err(|e| e.clone()))), case("one door rejects".into())),
+    }
+}
+
 // ---- macro spellings: compiled-in models, compared with their text twins
 fn macro_models(l: &mut Local) {
     use rooc::{Comparison, VariableType, constraint, expr, vars};
@@ -740,7 +780,7 @@ pub fn run(mut run: Run) -> ! {
     run.case_timeout_s = 60.0;
     let quick = run.quick();
     let depth = if quick { 1 } else { 2 };
-    run.rule = "generator-AST models (objective family and constraint family of C02/C01 over bounded declarations, objectives over three variables with different ranges, every row named) are expressed through: the fluent builder via operator overloads and helper functions (three operand spellings: Expr op Expr only; the most specific overload per operand pair over i32/f64 literals, Var handles, bool and helper functions over Var items; f64-only literals with Expr op &Expr) with EVERY call order (objective at each of the k+1 positions, every split of the constraints between with and with_all, satisfy explicit or defaulted, with and without two declared-but-unused variables and a decoy objective that the real objective call has to override), source text with inline constants, source text with the constants supplied through the API, PipeRunner chains (Compiler>PreModel>Model>LinearModel>MILP and >Auto; for continuous models also >RealSolver and >StandardLinearModel>Tableau>StepByStepSimplex), RoocSolver one-shot, plus compiled-in macro models that use every rule of constraint! (<=, >=, ==, <, >, ->, <->, bare logic; labelled and unlabelled), expr! with -> and <->, and every scalar and array declaration form of vars!; linear models are compared row for row (modulo unused builder variables), verdicts and optimal values across doors, pipe stage outputs with direct calls, values read back by variable name through every solving door (each declared variable has a value inside its domain and the source rows hold there), and values read back through handles, names and eval with the reference semantics; distinct = source texts; non-trivial = compiles".into();
+    run.rule = "generator-AST models (objective family and constraint family of C02/C01 over bounded declarations, objectives over three variables with different ranges, every row named) are expressed through: the fluent builder via operator overloads and helper functions (three operand spellings: Expr op Expr only; the most specific overload per operand pair over i32/f64 literals, Var handles, bool and helper functions over Var items; f64-only literals with Expr op &Expr) with EVERY call order (objective at each of the k+1 positions, every split of the constraints between with and with_all, satisfy explicit or defaulted, with and without two declared-but-unused variables and a decoy objective that the real objective call has to override), source text with inline constants, source text with the constants supplied through the API, PipeRunner chains (Compiler>PreModel>Model>LinearModel>MILP and >Auto; for continuous models also >RealSolver and >StandardLinearModel>Tableau>StepByStepSimplex), RoocSolver one-shot, plus 4 templates x 12 constants at the edges of the number kinds (1e19, 2^64, 2^53, 2^32, -0, 1e-7 ...) written in the text or supplied through the API, plus compiled-in macro models that use every rule of constraint! (<=, >=, ==, <, >, ->, <->, bare logic; labelled and unlabelled), expr! with -> and <->, and every scalar and array declaration form of vars!; linear models are compared row for row (modulo unused builder variables), verdicts and optimal values across doors, pipe stage outputs with direct calls, values read back by variable name through every solving door (each declared variable has a value inside its domain and the source rows hold there), and values read back through handles, names and eval with the reference semantics; distinct = source texts; non-trivial = compiles".into();
     run.assume("identical expression trees must give identical linear models; the builder keeps unused variables, which are projected away; tolerance 1e-6 on optimal values and read-back");
     // the quick tier uses the full declaration / constant menus at context depth 1
     let n2 = c02::family_size_pub(depth, false);
@@ -767,6 +807,7 @@ pub fn run(mut run: Run) -> ! {
     let ddepth = if quick { 0 } else { 1 };
     run.family("D-objectives-over-several-continuous-variables", c02::family_d_size(ddepth), move |i, l| check_case(&c02::family_d(i, ddepth), l));
     run.family("M-macro-spellings", 1, |_, l| macro_models(l));
+    run.family("K-api-constant-extremes", (API_TEMPLATES.len() * API_VALUES.len()) as u64, api_constant_case);
     for k in ["builder_call_orders", "models_with_agreeing_compilations", "verdicts_compared", "handles_read_back", "evals_compared", "pipe_stages_compared", "macro_models"] {
         run.require(k);
     }
